@@ -50,6 +50,12 @@ func (t *State) ImmediateVerifyTx(tx *pb.Transaction, isRootTx bool) (bool, erro
 	if tx.Autogen {
 		return false, ErrInvalidAutogenTx
 	}
+	// the marked flag is bound by neither digest nor id but switches processing (doTxInternal skips the
+	// input/output balance): a transaction carrying it is only acceptable through verifyMarked, i.e. with the
+	// regulator's signature
+	if tx.GetModifyBlock() != nil && tx.ModifyBlock.Marked {
+		return false, errors.New("marked tx should not run ImmediateVerifyTx")
+	}
 	MaxTxSizePerBlock, MaxTxSizePerBlockErr := t.MaxTxSizePerBlock()
 	if MaxTxSizePerBlockErr != nil {
 		return false, MaxTxSizePerBlockErr
